@@ -117,11 +117,16 @@ func (l defaultLogger) With(fs ...ContextField) Logger {
 	for _, f := range fs {
 		e = f(e)
 	}
+	// The parent's fields are copied: appending in place would let two loggers derived from the
+	// same parent write into the spare capacity of one backing array.
+	fields := e.(*defaultEvent).fields
+	defaultFields := make([]byte, 0, len(l.defaultFields)+len(fields))
+	defaultFields = append(append(defaultFields, l.defaultFields...), fields...)
 	return defaultLogger{
 		printer:       l.printer,
 		factory:       l.factory,
 		level:         l.level,
-		defaultFields: append(l.defaultFields, e.(*defaultEvent).fields...),
+		defaultFields: defaultFields,
 	}
 }
 
